@@ -396,13 +396,21 @@ def run_case(ctx, repo, case):
         other = case.get("then_mode")
         if other and other != mode:
             # the same object queried again under another calendar mode (its
-            # anchors must be dates of both calendars)
+            # anchors must be dates of both calendars); the last look before
+            # the switch is at the head of the series, the first look after
+            # it further along
+            for i in (0, 1, 2):
+                try:
+                    rec[i]
+                except IndexError:
+                    pass
             repo.set_mode(other)
             ok = all(x is None or R.tp_valid(other, x) for x in (
                 rec._start_point, rec._end_point))
             if ok:
                 ctx.cls("same-object-other-mode")
-                for i in list(range(min(n, 8) + 2)) + [n - 1, n]:
+                for i in [3, 4, 5, 6, 7] + list(range(min(n, 8) + 2)) + \
+                        [n - 1, n]:
                     if i < 0:
                         continue
                     try:
